@@ -98,6 +98,9 @@ pub struct RNode {
     // var
     pub logical: Val,
     pub written: i32,
+    /// created by a bind closure but at top scope (`Rhs::FV(false)`: `IncrState::var` ignores the current scope): the
+    /// bind's later runs do not invalidate it
+    pub top_scope: bool,
 }
 
 impl RNode {
@@ -117,6 +120,7 @@ impl RNode {
             absent: false,
             logical: Val::I(0),
             written: NEVER,
+            top_scope: false,
         }
     }
 }
@@ -365,7 +369,7 @@ impl Model {
         Some(match spec {
             Rhs::E(x) => o(x)?,
             Rhs::F(x) | Rhs::FG(x) => captured_mix(captured, &o(x)?),
-            Rhs::FC => captured.clone(),
+            Rhs::FC | Rhs::FV(_) => captured.clone(),
             Rhs::FF(x) => F1::Inc.apply(&captured_mix(captured, &o(x)?)),
             Rhs::NB(l, e, od) => {
                 let iv = o(l)?;
@@ -474,7 +478,12 @@ impl Model {
         let rhs = match spec {
             Rhs::E(x) => o(x),
             Rhs::F(x) => mk(self, 0, RKind::Map1(Fn1::Captured(captured.clone()), o(x))),
-            Rhs::FC => mk(self, 0, RKind::Const(captured.clone())),
+            Rhs::FC | Rhs::FV(true) => mk(self, 0, RKind::Const(captured.clone())),
+            Rhs::FV(false) => {
+                let k = mk(self, 0, RKind::Const(captured.clone()));
+                self.nodes.get_mut(&k).unwrap().top_scope = true;
+                k
+            }
             Rhs::FG(x) => {
                 mk(self, 0, RKind::Dead);
                 mk(self, 1, RKind::Map1(Fn1::Captured(captured.clone()), o(x)))
@@ -501,6 +510,7 @@ impl Model {
                 Some(k) => k,
             },
         };
+        let made: Vec<Key> = made.into_iter().filter(|k| !self.nodes[k].top_scope).collect();
         (rhs, made)
     }
 
@@ -556,7 +566,7 @@ impl Model {
         if !self.nodes.contains_key(k) {
             return false;
         }
-        if let Some((b, g)) = k.scope() {
+        if let (Some((b, g)), false) = (k.scope(), self.nodes[k].top_scope) {
             let b = b.clone();
             self.settle(&b, out);
             if self.nodes[&b].gen != g || !self.nodes[&b].valid {
